@@ -197,6 +197,11 @@ let handle line =
       let p = { p_name = unhex pname; p_origin = nint origin; p_image = unhex image } in
       let (f', ev) = Model.x_vf_asm_save f a p in
       Printf.sprintf "%s %s" (string_of_events ev) (dump_fs (names @ names_of [tb; tc; td]) f')
+  | ["asmmain"; fs; tb; tc; td; name; app; files; lines] ->
+      let (names, f) = fs_of_string fs in
+      let a = { s_to_bin = opt_path tb; s_to_cas = opt_path tc; s_to_dsk = opt_path td; s_name = unhex name; s_append = (app = "1") } in
+      let ((f', ev), x) = Model.x_cli_main f a (files_of files) (lines_of lines) in
+      Printf.sprintf "%d %s %s" (int_of_n x) (string_of_events ev) (dump_fs (names @ names_of [tb; tc; td]) f')
   | _ -> "ERROR unknown command"
 
 let () =
